@@ -12,7 +12,8 @@ CORPUS = core.VERIF / "harness" / "corpus" / "C13"
 
 TRUSTED = [
     "translator/c13.py (TYPE_LISTs, guard sequences of ArrayBase._validate / Photon.array / Photon.array_3d setters, "
-    "Detector bucket setters -> Gen_C13.src_tables; fails closed on any other shape; TYPE_LISTs cross-checked "
+    "Detector bucket setters, shapes of Photon.__iadd__/__add__/__eq__ and ArrayBase.__iadd__/__add__/__eq__, "
+    "array_2d delegation -> Gen_C13.src_tables; fails closed on any other shape; TYPE_LISTs cross-checked "
     "against the imported classes)",
     "numpy's in-place output-casting rule is generated data: can_cast(result_type(dst, src), dst, 'same_kind') over "
     "15 dtypes, cross-checked by executing `dst += src` in the installed numpy",
@@ -841,6 +842,8 @@ def run(ctx: Ctx):
             ctx.broken.append(Broken("theorem", "coqchk of Properties/C13.v", core.tail(out, 20)))
     if ctx.broken and not new_violations(ctx):
         search(ctx)
+    ctx.max_reported = 8
+    order_violations(ctx)
 
 
 def account(ctx: Ctx, pairs, mism, unm, n_corpus=0):
@@ -872,6 +875,26 @@ def account(ctx: Ctx, pairs, mism, unm, n_corpus=0):
         ctx.sample(dict(det=c["det"], bucket=c["bucket"], geometry=[c["rows"], c["cols"]],
                         ops=[x["op"] for x in c["ops"]],
                         results=[ob["out"].get("name", ob["out"]["t"]) for ob in o]))
+
+
+def defect_class(v: Violation):
+    """Coarse class of a violation: which operation / which side of a comparison breaks which clause."""
+    g = v.sig
+    if "left" in g:
+        return (g.get("clause"), g.get("left"), g.get("right"), g.get("relation"), g.get("result"),
+                "photon" if g.get("bucket") == "photon" else "arraybase")
+    return (g.get("clause"), g.get("op") if g.get("op") != "add" else "iadd",
+            "empty" if g.get("state") == "empty" else "initialised", "photon" if g.get("bucket") == "photon" else "arraybase")
+
+
+def order_violations(ctx: Ctx):
+    """One violation of every defect class first (so that the few VIOLATION lines of a run name different defects)."""
+    first, rest, seen = [], [], set()
+    for v in ctx.violations:
+        k = defect_class(v)
+        (rest if k in seen else first).append(v)
+        seen.add(k)
+    ctx.violations[:] = first + rest
 
 
 def new_violations(ctx: Ctx):
@@ -923,21 +946,25 @@ META = dict(
     level_text=(
         "Coq theorems over an executable model of the five container classes and the detector's bucket setters, "
         "parametrised by tables regenerated from the source on every run (TYPE_LISTs, the guard sequences of the three "
-        "validating functions, what each Detector setter does) and by numpy's in-place casting table: for ALL operation "
-        "sequences (induction over the op list) the invariant holds for pixel/signal/image/phase, and for photon for all "
-        "sequences that avoid the three places where the code admits an unvalidated array (proved refutations with "
-        "witnesses: += on an empty photon, += of negatives, assignment through the detector's photon setter); a failed "
-        "operation leaves the state untouched; reading an empty container raises; the equality specification is proved "
-        "for initialised operands and refuted (with witnesses) for empty ones. The model is tied to the code by running "
-        "generated operation sequences on buckets of real detectors of all four types and comparing, inside Coq and "
-        "after every operation, the stored array (shape, dtype, every element), .shape, .dtype, the returned value and "
-        "the exception class with the model; the implementation's states are additionally judged inside Coq against "
-        "the property's specification. That part is testing, not proof."),
+        "validating functions, what each Detector setter does, the shape of Photon.__iadd__/__add__, of "
+        "ArrayBase.__iadd__/__add__/__eq__ and of Photon.__eq__) and by numpy's in-place casting table: for ALL "
+        "operation sequences (induction over the op list; set, set3d, update, +=, +, empty, reads incl. __array__, ==, "
+        "detector assignment, detector.empty) on ALL five buckets, from every state satisfying the invariant whose stored "
+        "array its own setter accepts (in particular from a fresh detector), every intermediate and the final state "
+        "satisfy the invariant; a failed operation leaves the state untouched; reading an empty container raises; "
+        "== returns exactly the equality specification, is symmetric and never raises, for all pairs of containers "
+        "satisfying the invariant (NaN-free contents). No operation is excluded and no statement is refuted any more "
+        "(C13-F2a/b/c, C13-F3a/b/c repaired in the code; the translator maps the old shapes to tables that fail "
+        "C13_source_tables_ok). The model is tied to the code by running generated operation sequences on buckets of "
+        "real detectors of all four types and comparing, inside Coq and after every operation, the stored array "
+        "(shape, dtype, every element), .shape, .dtype, the returned value and the exception class with the model; the "
+        "implementation's states are additionally judged inside Coq against the property's specification. That part "
+        "is testing, not proof."),
     level_note=(
         "Trusted: Coq kernel + vm_compute; translator/c13.py; the correspondence harness and driver; numpy/xarray "
-        "arithmetic, broadcasting, clipping and comparison semantics as modelled (elements are small integers, NaN, "
-        "+-inf); operands are ndarrays/DataArrays; xarray in-place addition modelled for (wavelength, y, x) DataArrays "
-        "with coordinates only; aliasing of stored arrays not modelled."),
+        "arithmetic, broadcasting, clipping and comparison semantics as modelled (elements are integers exact in the "
+        "dtype, NaN, +-inf); operands are ndarrays/DataArrays; xarray in-place addition modelled for (wavelength, y, x) "
+        "DataArrays with coordinates only; aliasing of stored arrays not modelled."),
     technique="Coq invariant proof over op sequences + regenerated tables + in-Coq correspondence/spec evaluation",
     design_ref="DESIGN.md section 6, C13",
 )
